@@ -572,6 +572,12 @@ func (env *Env) elabBinary(x *EBinary) SV {
 			}
 			return env.boolSV(t)
 		}
+		// a concrete value compared with an interface value: the implicit conversion Go performs
+		if a.sort == "Iface" && b.sort != "Iface" && b.ty != nil {
+			b = SV{t: fmt.Sprintf("(mkIface %d %s)", env.vc.tagOf(b.ty), env.vc.box(b.ty, b.t)), sort: "Iface", ty: a.ty}
+		} else if b.sort == "Iface" && a.sort != "Iface" && a.ty != nil {
+			a = SV{t: fmt.Sprintf("(mkIface %d %s)", env.vc.tagOf(a.ty), env.vc.box(a.ty, a.t)), sort: "Iface", ty: b.ty}
+		}
 		if a.sort != b.sort {
 			return env.fail("comparison of different sorts %s / %s in %s", a.sort, b.sort, x.String())
 		}
